@@ -413,7 +413,7 @@ def run_one(choices, params):
 
         def call_method(seq, name, cargs, ckw):
             if name == "echo":
-                peer.reply(seq, (V, (cargs, tuple(sorted(ckw)))))
+                peer.reply(seq, (V, (cargs, tuple(ckw))))          # keyword arguments as they arrived: (name, value) pairs in call order
             elif name == "numbers":
                 itstate["n"] = 0
                 itstate["max"] = cargs[0]
@@ -534,24 +534,25 @@ def run_one(choices, params):
             if op in ("async", "timed"):
                 # the helpers build handler-7 requests of their own
                 args = tuple(values(w.draw(3)))
-                kw = dict(("k%d" % i, v) for i, v in enumerate(values(w.draw(3))))
+                kw = dict((("zeta", "alpha", "mid")[i], v) for i, v in enumerate(values(w.draw(4))))
                 fn = root.echo
                 wrapper = rpyc.async_(fn) if op == "async" else rpyc.timed(fn, 50)
                 res = wrapper(*args, **kw)
                 r = res.value
                 sim.count("c19:async-helper-call")
                 did(RC.H_CALL, "asynchronous call")
-                if not RC.same(r, (args, tuple(sorted(kw.items())))):
+                if not RC.same(r, (args, tuple(kw.items()))):
                     raise core.Violation("meaning-differs", "async echo%r%r came back as %r" % (args, kw, r))
                 del res, wrapper, fn
                 continue
             if op == "call":
                 args = tuple(values(w.draw(4)))
-                kw = dict(("k%d" % i, v) for i, v in enumerate(values(w.draw(3))))
+                kw = dict((("zeta", "alpha", "mid")[i], v) for i, v in enumerate(values(w.draw(4))))     # call order is not alphabetical
                 r = root.echo(*args, **kw)
                 did(RC.H_CALL, "method call (getattr + call)")
-                if not RC.same(r, (args, tuple(sorted(kw.items())))):
-                    raise core.Violation("meaning-differs", "echo%r%r came back as %r" % (args, kw, r))
+                if not RC.same(r, (args, tuple(kw.items()))):
+                    raise core.Violation("meaning-differs", "echo%r%r reached the reference server as %r (keyword arguments travel as "
+                                         "(name, value) pairs in the order of the call)" % (args, kw, r))
             elif op == "getattr":
                 if not RC.same(root.attr, model.attr):
                     raise core.Violation("meaning-differs", "getattr")
